@@ -29,12 +29,14 @@ SUBSETS = [s for n in (1, 2, 3) for s in itertools.combinations(("bin", "cas", "
 PRE_SETS = [[0], [1, 3], [4, 2, 0]]       # indices into c16.FILES: what the existing target holds (built by the independent writers)
 
 
-def program(size, origin, nam, end):
+def program(size, origin, nam, end, nam_at="first"):
     lines = []
-    if nam is not None:
+    if nam is not None and nam_at == "first":
         lines.append("        NAM {}".format(nam))
     if origin is not None:
         lines.append("        ORG ${:04X}".format(origin))
+    if nam is not None and nam_at == "after-org":
+        lines.append("        NAM {}".format(nam))
     if size == 39:
         lines += ["CHROUT  EQU $A30A", "POLCAT  EQU $A000", "START   JSR $A928", "        LDX #MESSAGE", "PRINT   LDA ,X+", "        CMPA #0",
                   "        BEQ FINISH", "        JSR CHROUT", "        BRA PRINT", 'MESSAGE FCC "HELLO WORLD"', "        FDB $0",
@@ -50,6 +52,8 @@ def program(size, origin, nam, end):
             lines.append("MID     EQU START")
         if body > 0:
             lines.append("        RMB {}".format(body))
+    if nam is not None and nam_at == "before-end":
+        lines.append("        NAM {}".format(nam))
     if end == "bare":
         lines.append("        END")
     elif end == "start":
@@ -76,6 +80,14 @@ def cases(tier, seed):
                         subs = SUBSETS if (thorough or size in (1, 39, 2295)) else [("bin", "cas", "dsk"), ("dsk",), ("cas",)]
                         for sub in subs:
                             yield {"size": size, "origin": origin, "nam": nam, "cliname": cn, "end": end, "out": list(sub)}
+    # NAM is a directive like any other: it may stand after the ORG or at the end of the program
+    for size in (1, 39):
+        for origin in (None, 0x0E00):
+            for nam_at in ("after-org", "before-end"):
+                for cn in (None, "cli"):
+                    for end in ("none", "start"):
+                        for sub in (("cas",), ("dsk",), ("bin", "cas", "dsk")):
+                            yield {"size": size, "origin": origin, "nam": "LATENAM", "cliname": cn, "end": end, "out": list(sub), "nam_at": nam_at}
     # targets that already exist and hold files, written to with --append: the program must be ON the image afterwards
     for size in (1, 39, 2295, 4600):
         for origin in (None, 0x0E00):
@@ -94,10 +106,11 @@ def cases(tier, seed):
 
 
 def check_case(case):
-    lines = program(case["size"], case["origin"], case["nam"], case["end"])
+    lines = program(case["size"], case["origin"], case["nam"], case["end"], case.get("nam_at", "first"))
     cell = "size={}|org={}|nam={}|cli={}|end={}|{}".format(
         "{}{}".format(case["size"], "" if "pre" not in case else ".onto{}".format(len(case["pre"]) if isinstance(case["pre"], list) else "." + case["pre"])), "none" if case["origin"] is None else "{:04X}".format(case["origin"]),
-        "none" if case["nam"] is None else "{}{}".format(len(case["nam"]), "u" if case["nam"].isupper() else "l" if case["nam"].islower() else "m"),
+        "none" if case["nam"] is None else "{}{}{}".format(len(case["nam"]), "u" if case["nam"].isupper() else "l" if case["nam"].islower() else "m",
+                                                          "" if "nam_at" not in case else "." + case["nam_at"]),
         "none" if case["cliname"] is None else ("u" if case["cliname"].isupper() else "l"), case["end"], "+".join(case["out"]))
     res = {"nontrivial": True, "outcome": "ok"}
     viol = []
@@ -233,7 +246,7 @@ def check_case(case):
 
 def describe(tier):
     return {
-        "alphabet": "image sizes {} x origins {} x NAM {} x --name {} x END {} x the 7 non-empty subsets of the output switches; the same onto existing cassette/disk targets holding 1-3 files with --append "
+        "alphabet": "image sizes {} x origins {} x NAM {} x --name {} x END {} x the 7 non-empty subsets of the output switches; NAM placed after the ORG and at the end of the program; the same onto existing cassette/disk targets holding 1-3 files with --append "
                     "(sizes 1 39 2295 4600, 2 origins, NAM / --name / a NAM equal to a stored file's name, 4 switch sets)".format(
             SIZES, ORIGINS, NAMS, CLINAMES, ENDS),
         "bound": "full product in thorough; in quick the full product for sizes 1 and 39 and a reduced product for the other sizes",
